@@ -24,7 +24,8 @@
 EXTENDS Expire, Json
 
 CONSTANTS MarginP,   \* a deadline at least this far after the probe: surely still served
-          MarginA    \* the probe is this far after the last step; a deadline at or before the last step: surely gone
+          MarginA,   \* a deadline at least this far before the probe: surely gone (>= sweep period + slack of ExpireTrace)
+          Horizon    \* deadlines within this of the last command are waited for
 
 VARIABLES hist, old, hold
 gvars == <<now, st, due, stored, shadow, log, nops, ev, hist, old, hold>>
@@ -64,15 +65,22 @@ StaleProbe == /\ ev'.a = "sweep"
                  \/ \E e \in hold : e.hi <= now /\ st.hooks[e.nm].p /\ st'.hooks[e.nm].p
 Expiry == ev'.a = "sweep" /\ (ev'.rem # {} \/ ev'.hrem # {})
 
-\* what is served at the probe instant q (evaluated on the state S reached at time t)
-Served(o, t, q) == IF ~o.p THEN "absent"
-                   ELSE IF ~o.x THEN "present"
-                   ELSE IF o.hi >= q + MarginP THEN "present"
-                   ELSE IF o.hi <= t THEN "absent"
-                   ELSE "unsure"
-Probe(S, t) == [op |-> "probe", at |-> t + MarginA,
-                exp |-> {[k |-> v[1], i |-> v[2], v |-> Served(S.cols[v[1]][v[2]], t, t + MarginA)] : v \in Keys \X Ids},
-                hexp |-> {[nm |-> nm, v |-> Served(S.hooks[nm], t, t + MarginA)] : nm \in Names}]
+\* The probe comes MarginA after the last command and after every deadline that falls within Horizon of it, so
+\* that those expiries are part of the run.  What is served at the probe instant q:
+ProbeAt(S, t) ==
+  LET ds == {S.cols[v[1]][v[2]].hi : v \in {w \in Keys \X Ids : S.cols[w[1]][w[2]].p /\ S.cols[w[1]][w[2]].x /\ S.cols[w[1]][w[2]].hi <= t + Horizon}}
+            \cup {S.hooks[nm].hi : nm \in {n \in Names : S.hooks[n].p /\ S.hooks[n].x /\ S.hooks[n].hi <= t + Horizon}}
+            \cup {t}
+  IN (CHOOSE m \in ds : \A d \in ds : d <= m) + MarginA
+Served(o, q) == IF ~o.p THEN "absent"
+                ELSE IF ~o.x THEN "present"
+                ELSE IF o.hi >= q + MarginP THEN "present"
+                ELSE IF o.hi + MarginA <= q THEN "absent"
+                ELSE "unsure"
+Probe(S, t) == LET q == ProbeAt(S, t) IN
+               [op |-> "probe", at |-> q,
+                exp |-> {[k |-> v[1], i |-> v[2], v |-> Served(S.cols[v[1]][v[2]], q)] : v \in Keys \X Ids},
+                hexp |-> {[nm |-> nm, v |-> Served(S.hooks[nm], q)] : nm \in Names}]
 \* A real clock cannot be replayed tick-exactly: a command whose outcome depends on whether a deadline near its own
 \* instant has already fired (EXPIRE / PERSIST of that id, RENAME of any collection - which hooks block too) makes the probe of its program
 \* undetermined.  Conservative, from the program alone: deadlines that were later moved or cancelled count too.
